@@ -29,6 +29,8 @@ def call(ex, st, fn, args, kw, node):
                 sb = st.copy(); sb.pc.append(sort_of(v.ty).is_none(v.z)); yield sb, Raise(ex.new_builtin_exc(sb, "TypeError", ["object of type 'NoneType' has no len()"]))
                 st.pc.append(z3.Not(sort_of(v.ty).is_none(v.z)))
             v = opt_payload(v)
+        if isinstance(v, Sym) and v.ty.kind == "abs" and ("abslen:" + v.ty.args[0]) in ex.contracts:
+            yield st, ex.contracts["abslen:" + v.ty.args[0]](ex, st, v); return
         if isinstance(v, UFL): yield st, Sym(INT, v.length); return
         if isinstance(v, UFDict): yield st, Sym(INT, v.size); return
         if isinstance(v, Sym) and v.ty.kind in ("str", "seqlist"): yield st, Sym(INT, z3.Length(v.z)); return
